@@ -106,7 +106,8 @@ struct RunResult {
     std::vector<QuiescentEvent> quiescent;
     long steps = 0, preemptions = 0, threadsCreated = 0, maxRunnable = 0;
     long long endVtimeNs = 0;
-    long pollsThread0 = 0;
+    long pollsThread0 = 0, helperResultsUsed = 0;
+    std::string wrongResult;
     int nodesBetweenTimeCheck = 0;
     bool threadsAllExited = false;
     std::vector<std::pair<long, std::vector<int>>> decisionLog; // (step, runnable ids) at points where >1 runnable and current could continue
@@ -355,6 +356,14 @@ public:
         res.limits.push_back({minT, maxT, early, now, step});
     }
     void quiescent(void* emt) override;
+    int lastReceivedJob = -2;
+    void helperResult(int received, int current, bool accepted) override {
+        std::unique_lock<std::mutex> L(m);
+        if (!accepted) { lastReceivedJob = received; return; }
+        res.helperResultsUsed++;
+        if (lastReceivedJob != current && res.wrongResult.empty())
+            res.wrongResult = "main thread acted on a helper result for job " + std::to_string(lastReceivedJob) + " while searching job " + std::to_string(current) + " (step " + std::to_string(step) + ")";
+    }
 
     // ---- streams
     void outLine(const std::string& l) {
@@ -445,6 +454,7 @@ inline void Sched::writeResult() {
     v["status"] = res.status; v["detail"] = res.detail; v["steps"] = res.steps; v["preemptions"] = res.preemptions;
     v["threads"] = res.threadsCreated; v["max_runnable"] = res.maxRunnable; v["end_vtime"] = res.endVtimeNs; v["polls0"] = res.pollsThread0;
     v["nbtc"] = res.nodesBetweenTimeCheck; v["all_exited"] = res.threadsAllExited;
+    v["helper_results"] = res.helperResultsUsed; v["wrong_result"] = res.wrongResult;
     Value o = Value::array();
     for (auto& l : res.out) { Value e = Value::array(); e.push(l.text); e.push(l.vtimeNs); e.push(l.step); o.push(e); }
     v["out"] = o;
@@ -472,6 +482,7 @@ inline RunResult parseResult(const std::string& s) {
     r.status = v.getStr("status"); r.detail = v.getStr("detail"); r.steps = (long)v.getInt("steps", 0); r.preemptions = (long)v.getInt("preemptions", 0);
     r.threadsCreated = (long)v.getInt("threads", 0); r.maxRunnable = (long)v.getInt("max_runnable", 0); r.endVtimeNs = v.getInt("end_vtime", 0);
     r.pollsThread0 = (long)v.getInt("polls0", 0); r.nodesBetweenTimeCheck = (int)v.getInt("nbtc", 0); r.threadsAllExited = v.getBool("all_exited", false);
+    r.helperResultsUsed = (long)v.getInt("helper_results", 0); r.wrongResult = v.getStr("wrong_result");
     for (auto& e : v.at("out").a) r.out.push_back({e.a[0].s, e.a[1].num(), (long)e.a[2].num()});
     for (auto& e : v.at("in").a) r.in.push_back({e.a[0].s, e.a[1].num(), (long)e.a[2].num(), e.a[3].b});
     for (auto& e : v.at("limits").a) r.limits.push_back({(int)e.a[0].num(), (int)e.a[1].num(), (int)e.a[2].num(), e.a[3].num(), (long)e.a[4].num()});
